@@ -12,17 +12,17 @@ T = {
  "C07": ("exploration", "evaluate() vs an independently written honest per-fold loop, with asymmetric metrics and a recording forecaster for the no-leakage invariant", "PBT differential vs honest loop + history invariant"),
  "C08": ("exploration", "Grid/randomized search vs independent evaluate() runs per candidate, both metric directions, refit delegation and not-fitted guard", "PBT differential vs independent evaluate runs"),
  "C09": ("exploration", "Composite forecasts vs manual composition of independently fitted parts; recording final steps and meta-regressors check the data representation and the hold-out", "PBT differential vs manual composition + recording doubles"),
- "C10": ("exploration", "Generated fit/update/predict/update_predict histories interpreted against a model of the observed data; refit-equivalence and cutoff oracles", "model-based testing over generated call histories"),
+ "C10": ("exploration", "Generated fit/update/predict/update_predict/re-fit histories (incl. revising batches, repeated update_predict, pipelines of point-wise transformers) interpreted against a model of the observed data; refit-equivalence, frozen-parameter and cutoff oracles", "model-based testing over generated call histories"),
  "C11": ("exploration", "Naive / polynomial-trend / statsmodels forecasters vs textbook reference formulas and the wrapped statsmodels models", "PBT vs reference formulas / differential vs statsmodels"),
- "C12": ("exploration", "Deep snapshots of caller data around every call, repeated/interleaved apply calls, equal-seed twins, n_jobs under the threading backend, pickle round trip", "PBT with snapshot / idempotence / twin-run oracles"),
+ "C12": ("exploration", "Deep snapshots of caller data around every call, repeated/interleaved apply calls (incl. remembered horizons and later stretches), equal-seed twins (also fitted before on other data), n_jobs under the threading backend, pickle round trip; exhaustive pass over every runnable estimator kind", "PBT with snapshot / idempotence / twin-run oracles"),
  "C13": ("exploration", "Inverse round trips, index preservation, seasonal phase function, fit_transform equivalence and index-shift metamorphic relation for series transformers", "PBT with round-trip and metamorphic oracles"),
  "C14": ("exploration", "Closed-form panel/series transformers vs plain-loop reference implementations written from the docstrings", "PBT vs reference implementations"),
  "C15": ("exploration", "All conversion paths of length <= 3 between the six panel representations vs independent decoders", "PBT round-trip / path-consistency"),
- "C16": ("exploration", "Permutation, single-instance and container metamorphic relations on fitted panel estimators", "PBT with metamorphic relations"),
- "C17": ("exploration", "predict_proba well-formedness, label decoding, score, and forest / column-ensemble averages recomputed from fitted members", "PBT with validity predicates + recomputation oracle"),
+ "C16": ("exploration", "Permutation, single-instance, sub-selection and container metamorphic relations on fitted panel estimators (row labels, cell time indexes, unequal lengths, refits); exhaustive pass over every estimator kind and over (length x parameter) pairs", "PBT with metamorphic relations"),
+ "C17": ("exploration", "predict_proba well-formedness, label decoding, score, relabelling metamorphic relation, and forest / column-ensemble averages recomputed from fitted members; exhaustive pass over classifier kind x label type x refit x duplicates", "PBT with validity predicates + recomputation oracle"),
  "C18": ("exploration", ".ts write/load round trip over generated panels and writer options; exhaustive agreement of bundled .ts/.arff/.tsv files and loader splits", "PBT round-trip + exhaustive enumeration of bundled datasets"),
  "C19": ("fault_enumeration", "For generated orchestration configurations, every k-th fit/predict call is made to fail, the run is resumed, and the store is compared with the uninterrupted run", "fault injection at every call index + differential vs uninterrupted run"),
- "C20": ("exploration", "Twin inputs (valid vs the same with one offending aspect) for every fault class x entry point pair", "PBT with twin-input (accept/reject) oracle"),
+ "C20": ("exploration", "Twin inputs (valid vs the same with one offending aspect): the whole discrete fault class x entry point x variant table exhaustively on fixed contexts, plus generated contexts per pair", "PBT with twin-input (accept/reject) oracle"),
 }
 NOTE = "trusted base: harness/compat.py (restores 2021 third-party names; no change to /repo), the reference models in /verif/props and /verif/harness, Hypothesis; explores generated cases only - no absence claim beyond them"
 claimed = sorted(os.path.basename(p)[:3].upper() for p in glob.glob(os.path.join(ROOT, "props", "c[0-9][0-9]_*.py")))
